@@ -241,6 +241,44 @@ func (*FutureSalts) CRC() uint32 {
 	return 0xae500895 //nolint:gomnd not magic
 }
 
+// salts:vector<future_salt> is a bare vector of bare constructors: count and then items one after another,
+// no crc codes at all. Generic encoder knows only boxed vectors of boxed objects, so this one is coded by hand
+func (t *FutureSalts) MarshalTL(e *tl.Encoder) error {
+	e.PutUint(t.CRC())
+	e.PutLong(t.ReqMsgID)
+	e.PutInt(t.Now)
+	e.PutInt(int32(len(t.Salts)))
+	for _, salt := range t.Salts {
+		if salt == nil {
+			return errors.New("future_salts: salt is nil")
+		}
+		e.PutInt(salt.ValidSince)
+		e.PutInt(salt.ValidUntil)
+		e.PutLong(salt.Salt)
+	}
+	return e.CheckErr()
+}
+
+func (t *FutureSalts) UnmarshalTL(d *tl.Decoder) error {
+	t.ReqMsgID = d.PopLong()
+	t.Now = d.PopInt()
+	count := int(d.PopInt())
+	// each salt takes exactly 16 bytes (valid_since, valid_until, salt)
+	if count < 0 || count > d.Remaining()/(tl.WordLen+tl.WordLen+tl.LongLen) {
+		return fmt.Errorf("future_salts is bigger than data: %v salts, but only %v bytes left", count, d.Remaining())
+	}
+	t.Salts = make([]*FutureSalt, count)
+	for i := range t.Salts {
+		t.Salts[i] = &FutureSalt{
+			ValidSince: d.PopInt(),
+			ValidUntil: d.PopInt(),
+			Salt:       d.PopLong(),
+		}
+	}
+
+	return nil
+}
+
 type Pong struct {
 	MsgID  int64
 	PingID int64
